@@ -63,10 +63,12 @@ add('s_view', 'view_mut_distinct', ['C07'], U(1, 4))
 add('s_iter', 'iter_script', ['C08', 'C11'], U(1, 5))
 add('s_iter', 'iter_mut_script', ['C08', 'C11'], U(1, 5))
 add('s_iter', 'into_iter_script', ['C03', 'C08', 'C11', 'C12'], U(1, 5))
+add('s_iter', 'iter_adaptors', ['C08'], U(1, 4), qn=[0, 1, 2, 3], tn=[4, 5])
 add('s_iter', 'iter_default', ['C08'], U(0, 2), qn=[1], tn=[])
 
 # ---------------------------------------------------------------- drain (s_drain)
 add('s_drain', 'drain', ['C01', 'C03', 'C09', 'C11', 'C20'], U(1, 4))
+add('s_drain', 'drain_adaptors', ['C03', 'C09'], U(1, 4), qn=[0, 1, 2, 3], tn=[4, 5])
 add('s_drain', 'drain_forget', ['C10'], U(1, 4))
 add('s_drain', 'drain_forget_plain', ['C10'], U(1, 4))
 add('s_drain', 'drain_debug', ['C09'], U(1, 4), qn=[0, 1, 3], tn=[4])
